@@ -76,6 +76,8 @@ def main(tier: str, seed: int, replay: str | None = None) -> int:
                 return E.gen_merge_program(rng, h)
             if k % 10 == 8:
                 return E.gen_reentrant_elim(rng, h)
+            if k % 20 == 10:
+                return E.gen_rise_program(rng, h)
             return E.gen_program(rng, h, constrained=(k % 4 != 0))
         items.append((h, [(one(k), []) for k in range(npg)]))
     stats = {"accepted": 0, "rejected": 0, "checker_validated": 0, "groundings": 0,
